@@ -1,0 +1,165 @@
+//! Seams for deterministic simulation (only compiled with `--cfg biscuit_auth_verif`).
+//!
+//! Nothing here exists in a normal build. With the guard on and nothing
+//! installed, the library behaves as usual (real clock, fixed hash key 0).
+//!
+//! * virtual clock: when installed on the current thread, `crate::time::Instant`
+//!   reads it instead of the OS clock. It only advances at work ticks
+//!   ([`work`]) by a scripted amount, or when the simulator calls [`advance`].
+//! * hash key: `FactSet` and `RuleSet` containers take their hasher key from
+//!   the current thread's key at the time they are created.
+use std::cell::{Cell, RefCell};
+use std::hash::{BuildHasher, Hasher};
+
+/// places where the engine performs one unit of work
+#[derive(Clone, Copy, Debug, PartialEq, Eq)]
+#[repr(usize)]
+pub enum Site {
+    /// one rule applied to the fact set in the fixpoint loop
+    RuleApplication = 0,
+    /// one check query evaluated by `authorize`
+    CheckQuery = 1,
+    /// one policy query evaluated by `authorize`
+    PolicyQuery = 2,
+    /// one `query` / `query_all` evaluation
+    Query = 3,
+}
+
+pub const SITES: usize = 4;
+
+#[derive(Clone, Debug, Default)]
+pub struct ClockScript {
+    /// nanoseconds added to the virtual clock at every work tick
+    pub per_tick_ns: u64,
+    /// extra nanoseconds added at the work tick with this (0-based) index
+    pub stall_at: Option<(u64, u64)>,
+}
+
+thread_local! {
+    static CLOCK_NS: Cell<Option<u64>> = Cell::new(None);
+    static SCRIPT: RefCell<ClockScript> = RefCell::new(ClockScript::default());
+    static TICKS: Cell<u64> = Cell::new(0);
+    static SITE_TICKS: Cell<[u64; SITES]> = Cell::new([0; SITES]);
+    static CLOCK_READS: Cell<u64> = Cell::new(0);
+    static HASH_KEY: Cell<u64> = Cell::new(0);
+    static BASE: std::time::Instant = std::time::Instant::now();
+}
+
+/// installs a virtual clock at 0 ns with the given script and resets the counters
+pub fn install_clock(script: ClockScript) {
+    CLOCK_NS.with(|c| c.set(Some(0)));
+    SCRIPT.with(|s| *s.borrow_mut() = script);
+    TICKS.with(|t| t.set(0));
+    SITE_TICKS.with(|t| t.set([0; SITES]));
+    CLOCK_READS.with(|t| t.set(0));
+}
+
+/// goes back to the OS clock
+pub fn uninstall_clock() {
+    CLOCK_NS.with(|c| c.set(None));
+}
+
+/// moves the virtual clock forward (idle time, clock jump); no-op on the OS clock
+pub fn advance(ns: u64) {
+    CLOCK_NS.with(|c| {
+        if let Some(now) = c.get() {
+            c.set(Some(now.saturating_add(ns)));
+        }
+    });
+}
+
+/// current virtual time in nanoseconds, if a virtual clock is installed
+pub fn virtual_now_ns() -> Option<u64> {
+    CLOCK_NS.with(|c| c.get())
+}
+
+/// number of work ticks since the clock was installed
+pub fn ticks() -> u64 {
+    TICKS.with(|t| t.get())
+}
+
+pub fn site_ticks() -> [u64; SITES] {
+    SITE_TICKS.with(|t| t.get())
+}
+
+pub fn clock_reads() -> u64 {
+    CLOCK_READS.with(|t| t.get())
+}
+
+/// one unit of work happened at `site`
+pub fn work(site: Site) {
+    let index = TICKS.with(|t| {
+        let i = t.get();
+        t.set(i + 1);
+        i
+    });
+    SITE_TICKS.with(|t| {
+        let mut a = t.get();
+        a[site as usize] += 1;
+        t.set(a);
+    });
+    let delta = SCRIPT.with(|s| {
+        let s = s.borrow();
+        let mut d = s.per_tick_ns;
+        if let Some((at, extra)) = s.stall_at {
+            if at == index {
+                d = d.saturating_add(extra);
+            }
+        }
+        d
+    });
+    if delta > 0 {
+        advance(delta);
+    }
+}
+
+/// what `crate::time::Instant::now()` returns
+pub(crate) fn now() -> std::time::Instant {
+    CLOCK_READS.with(|t| t.set(t.get() + 1));
+    match CLOCK_NS.with(|c| c.get()) {
+        None => std::time::Instant::now(),
+        Some(ns) => BASE.with(|b| *b + std::time::Duration::from_nanos(ns)),
+    }
+}
+
+/// sets the key used by fact and rule containers created from now on on this thread
+pub fn set_hash_key(key: u64) {
+    HASH_KEY.with(|k| k.set(key));
+}
+
+pub fn hash_key() -> u64 {
+    HASH_KEY.with(|k| k.get())
+}
+
+/// keyed SipHash builder; `default()` reads the current thread's key
+#[derive(Clone, Debug)]
+pub struct SeededState(u64);
+
+impl Default for SeededState {
+    fn default() -> Self {
+        SeededState(hash_key())
+    }
+}
+
+impl BuildHasher for SeededState {
+    type Hasher = SeededHasher;
+    #[allow(deprecated)]
+    fn build_hasher(&self) -> SeededHasher {
+        SeededHasher(std::hash::SipHasher::new_with_keys(
+            self.0,
+            self.0 ^ 0x9e37_79b9_7f4a_7c15,
+        ))
+    }
+}
+
+#[allow(deprecated)]
+pub struct SeededHasher(std::hash::SipHasher);
+
+impl Hasher for SeededHasher {
+    fn finish(&self) -> u64 {
+        self.0.finish()
+    }
+    fn write(&mut self, bytes: &[u8]) {
+        self.0.write(bytes)
+    }
+}
